@@ -2,14 +2,15 @@
    recorded VM.refs (VerifRefs hook).  The model replays the script; compared are the counter before every
    instruction (mechanism), the outcome (state, gas, stack), and - the specification - that the counter the
    implementation showed is never below what an actual walk of the model state finds, and stays within the limit. *)
-From NG Require Import Common.Tactics Common.HarnessLib VM.Model VM.Reach.
+From NG Require Import Common.Tactics Common.HarnessLib VM.Model VM.Reach VM.Static.
 From NG Require Export VM.Obs.
 Open Scope Z_scope.
 
 Inductive case :=
 | CTrace (prog : list Z) (base limit_pico : Z) (fuel : positive)
          (refs : list Z)            (* VerifRefs before each of the first instructions *)
-         (impl : outcome).
+         (impl : outcome)
+         (static : bool).           (* scparser.IsScriptCorrect(script, nil) == nil *)
 
 (* replay: returns (mechanism ok so far, specification ok so far) and the final result *)
 Fixpoint replay (fuel : nat) (s : state) (refs : list Z) (m sp : bool) : bool * bool * result :=
@@ -29,20 +30,23 @@ Fixpoint replay (fuel : nat) (s : state) (refs : list Z) (m sp : bool) : bool * 
 
 Definition check_case (c : case) : N :=
   match c with
-  | CTrace prog base limit fuel refs impl =>
+  | CTrace prog base limit fuel refs impl static =>
       if negb (bytes_okb prog) then 3%N else
       let '(m, sp, r) := replay (Pos.to_nat fuel) (init_state prog 1%N base limit) refs true true in
       match outcome_of r with
       | None => 2%N
       | Some o =>
           let same := outcome_eqb o impl in
-          (* the outcome is specified by the model (C13); the counter only has to be sound *)
-          if same && m && sp then 0%N else if same && sp then 1%N else 2%N
+          let st := script_correct prog in
+          (* the outcome is specified by the model (C13); the counter only has to be sound; the static check may be
+             stricter than the model's, never laxer *)
+          if same && m && sp && Bool.eqb st static then 0%N
+          else if same && sp && (st || negb static) then 1%N else 2%N
       end
   end.
 
 Definition model_view (c : case) :=
   match c with
-  | CTrace prog base limit fuel refs impl =>
-      let '(m, sp, r) := replay (Pos.to_nat fuel) (init_state prog 1%N base limit) refs true true in (m, sp, outcome_of r)
+  | CTrace prog base limit fuel refs impl static =>
+      let '(m, sp, r) := replay (Pos.to_nat fuel) (init_state prog 1%N base limit) refs true true in (m, sp, outcome_of r, script_correct prog)
   end.
